@@ -320,7 +320,7 @@ class ReexpressIVC(om.IndepVarComp):
 class ASModel:
     """AerostructGeometry + one or more AerostructPoint, wired as in the repository's tests/docs."""
 
-    def __init__(self, surfs, flow=None, npoints=1, compressible=False, rng=None, meshes=None, nl="NLBGS_aitken", lin="Direct", mode="auto", atol=1e-8, dicts=None, rotational=False, lin_maxiter=None, units="SI"):
+    def __init__(self, surfs, flow=None, npoints=1, compressible=False, rng=None, meshes=None, nl="NLBGS_aitken", lin="Direct", mode="auto", atol=1e-8, dicts=None, rotational=False, lin_maxiter=None, units="SI", point_kw=None):
         from openaerostruct.integration.aerostruct_groups import AerostructGeometry, AerostructPoint
 
         self.surfs = surfs
@@ -345,6 +345,8 @@ class ASModel:
         ground = any(d.get("groundplane") for d in self.dicts)
         if ground:
             ivc.add_output("height_agl", val=self.flow.get("height_agl", 8.0), units="m")
+        if (point_kw or {}).get("user_specified_Sref"):
+            ivc.add_output("S_ref_total", val=self.flow.get("S_ref_total", 60.0), units="m**2")
         fuel = any(d.get("distributed_fuel_weight") for d in self.dicts)
         pm = [d for d in self.dicts if "n_point_masses" in d]
         for d in pm:
@@ -361,13 +363,15 @@ class ASModel:
         for i in range(npoints):
             pn = "AS_point_%d" % i
             self.points.append(pn)
-            pt = AerostructPoint(surfaces=self.dicts, compressible=compressible, rotational=rotational)
+            pt = AerostructPoint(surfaces=self.dicts, compressible=compressible, rotational=rotational, **(point_kw or {}))
             prob.model.add_subsystem(pn, pt)
             for k in units:
                 src = "%s_%d" % (k, i) if (k in self.point_vars and npoints > 1) else k
                 prob.model.connect(src, pn + "." + k)
             if ground:
                 prob.model.connect("height_agl", pn + ".height_agl")
+            if (point_kw or {}).get("user_specified_Sref"):
+                prob.model.connect("S_ref_total", pn + ".S_ref_total")
             if any(d["struct_weight_relief"] or d.get("distributed_fuel_weight") or "n_point_masses" in d for d in self.dicts):
                 lf = "load_factor_%d" % i if npoints > 1 else "load_factor"
                 prob.model.connect(lf, pn + ".coupled.load_factor")
